@@ -100,3 +100,25 @@ def ob(prop, name, body, params, timeout=300, fixed=None, kind="e2c"):
         "fixed": fixed or {},
         "timeout": timeout,
     }
+
+
+def deepen(obs, dsteps=1):
+    """Thorough tier: every bounded-history obligation gets `dsteps` more completion events and a
+    longer budget; obligations with a single control request are partitioned by the kind and
+    boundary of the request so that each worker stays tractable."""
+    out = []
+    for o in obs:
+        p = o.get("params") or {}
+        if o.get("kind") != "e2c" or "steps" not in p or p.get("twin") or o.get("slice") or any(k in (o.get("fixed") or {}) for k in ("ctl_at", "crash_at")):
+            d = dict(o)
+            d["timeout"] = float(o.get("timeout", 300)) * 3
+            out.append(d)
+            continue
+        d = dict(o)
+        d["params"] = dict(p, steps=p["steps"] + dsteps)
+        d["timeout"] = float(o.get("timeout", 300)) * 4
+        if p.get("control") in ("pause", "cancel", "either") and not o.get("fixed"):
+            out.extend(control_slices(d, d["params"]["steps"] + 2))
+        else:
+            out.append(d)
+    return out
